@@ -197,8 +197,13 @@ where
         Ok(trailer)
     }
     pub fn scan(&self) -> impl Iterator<Item = Result<ScanItem>> + '_ {
-        let xref_offset = self.backend.locate_xref_offset().unwrap();
-        let slice = self.backend.read(self.start_offset .. xref_offset).unwrap();
+        // a missing or out-of-range startxref is reported as the first (and only) item
+        let (slice, mut error) = match self.backend.locate_xref_offset()
+            .and_then(|xref_offset| self.backend.read(self.start_offset .. xref_offset))
+        {
+            Ok(slice) => (slice, None),
+            Err(e) => (&[][..], Some(e))
+        };
         let mut lexer = Lexer::with_offset(slice, 0);
         
         fn skip_xref(lexer: &mut Lexer) -> Result<()> {
@@ -210,6 +215,9 @@ where
 
         let resolver = StorageResolver::new(self);
         std::iter::from_fn(move || {
+            if let Some(e) = error.take() {
+                return Some(Err(e));
+            }
             loop {
                 let pos = lexer.get_pos();
                 match parse_indirect_object(&mut lexer, &resolver, self.decoder.as_ref(), ParseFlags::all()) {
